@@ -19,8 +19,8 @@ theorem declsOf_length : ∀ (op : Host) (na : Nat), (declsOf na op).length = aC
   | .addF _ _ _, _ => rfl
   | .addR _ _ _, _ => rfl
   | .ifc _ _ _ _ body, na => by simp [declsOf, aCount, declsOf_length body]
-  | .loop _ _ _ body, na => by simp [declsOf, aCount, declsOf_length body]
-  | .loopBody _ _ _ body, na => by simp [declsOf, aCount, declsOf_length body]
+  | .loop _ _ _ _ body, na => by simp [declsOf, aCount, declsOf_length body]
+  | .loopBody _ _ _ _ body, na => by simp [declsOf, aCount, declsOf_length body]
   | .foreach _ _ body, na => by simp [declsOf, aCount, declsOf_length body]
   | .loopUntil _ body _ _ cl, na => by
     cases he : emits body <;> simp [declsOf, aCount, he, declsOf_length body, declsOf_length cl]
@@ -36,8 +36,8 @@ theorem declsOf_addr : ∀ (op : Host) (na : Nat), (declsOf na op).map (·.addr)
   | .addF _ _ _, _ => rfl
   | .addR _ _ _, _ => rfl
   | .ifc _ _ _ _ body, na => by simp [declsOf, aCount, declsOf_addr body]
-  | .loop _ _ _ body, na => by simp [declsOf, aCount, declsOf_addr body]
-  | .loopBody _ _ _ body, na => by simp [declsOf, aCount, declsOf_addr body]
+  | .loop _ _ _ _ body, na => by simp [declsOf, aCount, declsOf_addr body]
+  | .loopBody _ _ _ _ body, na => by simp [declsOf, aCount, declsOf_addr body]
   | .foreach _ _ body, na => by simp [declsOf, aCount, declsOf_addr body]
   | .loopUntil _ body _ _ cl, na => by
     cases he : emits body <;>
@@ -61,8 +61,8 @@ theorem declsOf_ok : ∀ (op : Host) (na : Nat), ∀ d ∈ declsOf na op, DeclOK
   | .addF _ _ _, _, d, h => by simp [declsOf] at h
   | .addR _ _ _, _, d, h => by simp [declsOf] at h
   | .ifc _ _ _ _ body, na, d, h => declsOf_ok body na d (by simpa [declsOf] using h)
-  | .loop _ _ _ body, na, d, h => declsOf_ok body na d (by simpa [declsOf] using h)
-  | .loopBody _ _ _ body, na, d, h => declsOf_ok body na d (by simpa [declsOf] using h)
+  | .loop _ _ _ _ body, na, d, h => declsOf_ok body na d (by simpa [declsOf] using h)
+  | .loopBody _ _ _ _ body, na, d, h => declsOf_ok body na d (by simpa [declsOf] using h)
   | .foreach _ _ body, na, d, h => declsOf_ok body na d (by simpa [declsOf] using h)
   | .loopUntil _ body _ _ cl, na, d, h => by
     simp only [declsOf, List.mem_append] at h
@@ -90,13 +90,13 @@ theorem segDecls_ok : ∀ (ops : List Host) (na : Nat), ∀ d ∈ segDecls na op
 
 /-- shared shape of `loop`, `loopBody`, `foreach` for the length table -/
 theorem loopShape_lens {m m1 m2 m4 : Mem} {i : Nat} {s e d : Int} {cs : List PCmd} {b : Bool} {body : Host}
-    (h1 : takeReg m = .ok (m1, i))
+    {rg : Option Nat} (h1 : takeAt m rg = .ok (m1, i))
     (ih : m2.arrLens = (bindHandle m1 (R i) b).arrLens ++
       (declsOf (bindHandle m1 (R i) b).arrLens.length body).map (·.len))
     (h4 : release (buildLoop m2 s e d (R i) cs).1 i = .ok m4) :
     m4.arrLens = m.arrLens ++ (declsOf m.arrLens.length body).map (·.len) := by
   rw [(release_same h4).lens, (buildLoop_sameL _ _ _ _ _ _).lens, ih]
-  simp [bindHandle, (takeReg_same h1).lens]
+  simp [bindHandle, (takeAt_same h1).lens]
 
 /-- the table of array lengths grows by the lengths of the declared arrays -/
 theorem emit_lens : ∀ (op : Host) (m m' : Mem) (cs : List PCmd), emit m op = .ok (m', cs) →
@@ -173,7 +173,7 @@ theorem emit_lens : ∀ (op : Host) (m m' : Mem) (cs : List PCmd), emit m op = .
     · cases h
     · rename_i m1 bc h1
       rw [(buildCondition_sameL h).lens, ih _ _ _ h1]; simp [declsOf]
-  | loop s e d body ih =>
+  | loop rg s e d body ih =>
     intro m m' cs h
     simp only [emit] at h
     split at h
@@ -187,7 +187,7 @@ theorem emit_lens : ∀ (op : Host) (m m' : Mem) (cs : List PCmd), emit m op = .
         · rename_i m4 h4
           cases h
           simpa [declsOf] using loopShape_lens h1 (ih _ _ _ h2) h4
-  | loopBody s e d body ih =>
+  | loopBody rg s e d body ih =>
     intro m m' cs h
     simp only [emit] at h
     split at h
@@ -216,7 +216,7 @@ theorem emit_lens : ∀ (op : Host) (m m' : Mem) (cs : List PCmd), emit m op = .
           · cases h
           · rename_i m4 h4
             cases h
-            simpa [declsOf] using loopShape_lens h1 (ih _ _ _ h2) h4
+            simpa [declsOf] using loopShape_lens (rg := none) h1 (ih _ _ _ h2) h4
   | loopUntil n body ef ev cl ihb ihc =>
     intro m m' cs h
     simp only [emit] at h
